@@ -277,9 +277,11 @@ def run_case(case):
     model = norm_model(case["model"])
     img, layout = R.build_roland(model)
     expected = R.expected_exports(model)
-    res = tree.full_run(img, cpu_s=30.0, ls_paths=("",))
+    res = tree.full_run(img, cpu_s=30.0, ls_paths=("",), again=case["sweep"] in ("topology", "slots", "names", "sharedchain", "window"))
     if res["status"] == "hang":
         return False, "hang", {"observed": "non-termination (cpu budget)"}
+    if res.get("again"):
+        return False, "second-export-differs", res["again"]
     if res["status"] == "exc":
         return False, "raised:" + exc_sig(res["exc"]), {"observed": repr(res["exc"])[:300], "files": sorted(res["files"])[:5]}
     if case["sweep"] == "names":
@@ -315,7 +317,8 @@ class Check(CheckBase):
             "samples per partial, unreferenced sample, orphan performance; (slots) every assignment of a partial's four sample "
             "slots over {unused, 3 samples}, sparse and completely filled partial / patch / performance lists incl. the last slot; (fatheader) "
             "free-cluster count word x FAT version x chain length 1,2,4 x order; (highslots) items in the highest / middle slots of each directory area (performance 511, patch 1023, partial 4095, sample 8191); (sharedchain) two samples in one chain: 6 chain orders x 6 offset pairs x same partial / other performance; (names) 9 families of special name shapes x "
-            "3 volume/performance names, judged by content only. non-trivial = permuted chain, cluster_top>0, "
+            "3 volume/performance names, judged by content only; the window, topology, slots, names and sharedchain cases export "
+            "twice from one image object and the second export must equal the first. non-trivial = permuted chain, cluster_top>0, "
             "reverse mode, window ending on a cluster boundary, or a flipped edge")
     assumptions = ["independent S-7xx writer (mcv/gen/roland.py) and RIFF walker are correct",
                    "names plain and collision-free (collisions: C05/C06)"]
